@@ -22,6 +22,7 @@ type k3spec struct {
 	from string // fragment (see k2spec)
 	to   string
 	m4   bool // a function of the fourth list (Gen/Kernels4.v)
+	heap bool // (fourth mode) translated in the heap variant (t4_heap.go)
 }
 
 // interfaces translated as sum types: qualified interface name -> the dynamic types (in constructor order)
@@ -56,6 +57,7 @@ type fsig3 struct {
 	rec      bool // self-recursive (a Fixpoint on fuel)
 	consumes []bool
 	gsig     *types.Signature
+	heap     bool // heap variant: takes the table after fuel and returns it last
 	resClass []int // per Go result of pointer type: 0 a fresh object (or a value), 1 the receiver or a fresh object, 2 unknown
 }
 
@@ -68,6 +70,9 @@ func (s *fsig3) nOut() int {
 		if m {
 			n++
 		}
+	}
+	if s.heap {
+		n++
 	}
 	return n
 }
@@ -172,6 +177,10 @@ func (c *m3) coqT(t mtype) string {
 		return "option " + paren(c.coqT(*t.elem))
 	case mMap:
 		return fmt.Sprintf("option (list (%s * %s))", c.coqT(*t.key), c.coqT(*t.elem))
+	case mFloat:
+		return "Go4.float"
+	case mHPtr:
+		return "option N"
 	}
 	return "?"
 }
@@ -195,6 +204,10 @@ func (c *m3) zeroT(t mtype, at ast.Node) string {
 		return fmt.Sprintf("(@None %s)", paren(c.coqT(*t.elem)))
 	case mUnit:
 		return "tt"
+	case mFloat:
+		return "Go4.f64_zero"
+	case mHPtr:
+		return "(@None N)"
 	case mAbs:
 		c.g.needAbsType(t.abs)
 		c.needVar(t.abs+"_nil", t.abs+"_t", at)
@@ -337,6 +350,9 @@ func (c *m3) mtL(t types.Type, at ast.Node, lenient bool) mtype {
 
 func (c *m3) declStruct(n *types.Named, st *types.Struct, at ast.Node) mtype {
 	name := pkgShort(n) + n.Obj().Name()
+	if curHeap4 && hasHeapPtr4(st, 0) {
+		name += "_h" // a Record of the heap variant: its pointers to heap objects are indices
+	}
 	if c.g.inProg[name] {
 		c.fail(at, "recursive struct type %s", name)
 	}
@@ -477,6 +493,7 @@ func (g *g3) computeMut(specs []k3spec, decls map[string]*ast.FuncDecl, pk map[s
 			p := pk[k.pkg]
 			curPkg3 = p.tpkg
 			curMode4 = k.m4
+			curHeap4 = k.heap
 			var recvObj types.Object
 			if fd.Recv != nil && len(fd.Recv.List[0].Names) == 1 {
 				recvObj = p.info.Defs[fd.Recv.List[0].Names[0]]
@@ -489,6 +506,7 @@ func (g *g3) computeMut(specs []k3spec, decls map[string]*ast.FuncDecl, pk map[s
 					i++
 				}
 			}
+			origs := originsOf4(p.info, fd.Body)
 			mark := func(e ast.Expr) {
 				through := false
 				viaIndex := false
@@ -522,9 +540,24 @@ func (g *g3) computeMut(specs []k3spec, decls map[string]*ast.FuncDecl, pk map[s
 				if o == nil {
 					return
 				}
+				if len(origs) > 0 && origs[o] != nil {
+					// (fourth mode, JSON) a write to an alias of a part of a JSON parameter: the parameter's new value is returned
+					if r := originRoot4(p.info, origs, o); r != nil {
+						if j, ok := parIdx[r]; ok && !mi.par[j] && isEmptyIface4(r.Type()) {
+							mi.par[j] = true
+							changed = true
+						}
+					}
+					return
+				}
 				if _, isSlice := o.Type().Underlying().(*types.Slice); isSlice && viaIndex && !through {
 					if j, ok := parIdx[o]; ok && !mi.par[j] {
 						mi.par[j] = true
+						changed = true
+					}
+					if o == recvObj && !mi.recv {
+						// a method of a slice type that writes elements of its receiver: the new slice is returned
+						mi.recv = true
 						changed = true
 					}
 					return
@@ -534,6 +567,9 @@ func (g *g3) computeMut(specs []k3spec, decls map[string]*ast.FuncDecl, pk map[s
 				}
 				if _, isPtr := o.Type().Underlying().(*types.Pointer); !isPtr {
 					return
+				}
+				if isHeapPtr4(o.Type()) {
+					return // the object lives in the table
 				}
 				if o == recvObj && !mi.recv {
 					mi.recv = true
@@ -555,7 +591,7 @@ func (g *g3) computeMut(specs []k3spec, decls map[string]*ast.FuncDecl, pk map[s
 				case *ast.CallExpr:
 					// copy(p.f[a:], ..), binary.X.PutUint32(p.f[a:], ..) write p.f
 					isWrite := false
-					if id, ok := n.Fun.(*ast.Ident); ok && id.Name == "copy" {
+					if id, ok := n.Fun.(*ast.Ident); ok && (id.Name == "copy" || (id.Name == "delete" && curMode4)) {
 						isWrite = true
 					}
 					if sel, ok := n.Fun.(*ast.SelectorExpr); ok && sel.Sel.Name == "PutUint32" {
@@ -596,6 +632,20 @@ func (g *g3) computeMut(specs []k3spec, decls map[string]*ast.FuncDecl, pk map[s
 							if ck := methodKey(k.pkg, tv.Type, sel.Sel.Name); ck != "" {
 								if cm := g.mut[ck]; cm != nil && cm.recv {
 									mark(&ast.SelectorExpr{X: sel.X, Sel: sel.Sel})
+								}
+							}
+						}
+					}
+					// (fourth mode) an abstract call that changes the abstract object passed as argument j: when that is
+					// a parameter of this function, its new value is returned to the caller
+					if curMode4 {
+						for _, j := range mutArgs3[absCallName4(p.info, n)] {
+							if j < len(n.Args) {
+								if id, ok := stripParens(n.Args[j]).(*ast.Ident); ok {
+									if pj, isPar := parIdx[p.info.Uses[id]]; isPar && !mi.par[pj] && abstractName3(p.info.Uses[id].Type()) != "" {
+										mi.par[pj] = true
+										changed = true
+									}
 								}
 							}
 						}
@@ -655,9 +705,15 @@ func (c *m3) translate3() (out string, err error) {
 	}
 	curPkg3 = c.p.tpkg
 	curMode4 = c.spec.m4
-	c.sig = &fsig3{name: c.spec.name, key: k3key(c.spec)}
+	curHeap4 = c.spec.heap
+	c.sig = &fsig3{name: c.spec.name, key: k3key(c.spec), heap: c.spec.heap}
 	c.usedVars = map[string]bool{}
 	c.desugar(fn.Body)
+	c.giveRangeKeys4(fn.Body)
+	c.origins = originsOf4(c.p.info, fn.Body)
+	if len(c.origins) > 0 {
+		c.note(fn, "the JSON document is assumed to be a TREE (no map or slice reachable along two paths, as encoding/json builds it): a write through an alias obtained by a type switch / range is written back to the container")
+	}
 	c.assignNames()
 	c.computeDirect()
 	type par struct {
@@ -675,7 +731,8 @@ func (c *m3) translate3() (out string, err error) {
 		rid := fn.Recv.List[0].Names[0]
 		c.recvObj = c.p.info.Defs[rid]
 		rt := c.recvObj.Type()
-		if pt, ok := rt.Underlying().(*types.Pointer); ok {
+		heapRecv := isHeapPtr4(rt)
+		if pt, ok := rt.Underlying().(*types.Pointer); ok && !heapRecv {
 			c.sig.recvPtr = true
 			rt = pt.Elem()
 			c.direct[c.recvObj] = true
@@ -684,7 +741,7 @@ func (c *m3) translate3() (out string, err error) {
 		t := c.mt(rt, rid)
 		c.sig.recv = &t
 		params = append(params, par{c.vn(c.recvObj), t})
-		if mi != nil && mi.recv {
+		if mi != nil && mi.recv && !heapRecv {
 			c.sig.mutRecv = true
 		}
 	}
@@ -776,6 +833,7 @@ func (c *m3) translate3() (out string, err error) {
 	c.aliasCheck()
 	if c.spec.m4 {
 		c.checkBig()
+		c.checkOrigins4()
 	}
 	run := func(fallible bool) string {
 		c.sb.Reset()
@@ -843,6 +901,9 @@ func (c *m3) translate3() (out string, err error) {
 			outs = append(outs, "the new "+c.sig.pnames[i])
 		}
 	}
+	if c.sig.heap {
+		outs = append(outs, "the new "+heapName4())
+	}
 	fmt.Fprintf(&sb, "   Result: %s\n", strings.Join(outs, ", "))
 	if len(c.usedVars) > 0 {
 		var uv []string
@@ -873,6 +934,9 @@ func (c *m3) translate3() (out string, err error) {
 	var ps []string
 	if c.sig.fuel && !c.sig.rec {
 		ps = append(ps, "(fuel : nat)")
+	}
+	if c.sig.heap {
+		ps = append(ps, fmt.Sprintf("(%s : %s)", heapName4(), c.coqT(c.varType(c.heapVar(), fn))))
 	}
 	for _, p := range params {
 		ps = append(ps, fmt.Sprintf("(%s : %s)", p.name, c.coqT(p.t)))
@@ -909,6 +973,9 @@ func (c *m3) resType3() string {
 		if m {
 			parts = append(parts, paren(c.coqT(c.sig.params[i])))
 		}
+	}
+	if c.sig.heap {
+		parts = append(parts, paren(c.coqT(c.varType(c.heapVar(), c.fn))))
 	}
 	t := "unit"
 	if len(parts) == 1 {
